@@ -150,7 +150,7 @@ def run(chk, w):
 
     # ---- CONTENT: which destination is chosen depends on the message bytes only
     chk.rule("C06-CONTENT", "every branch of the dispatcher that selects between destinations is a function of type and message bytes only (no tracked state, no configuration)")
-    consuming = {i.id for i in disp.all_insts() if i.op == "call" and i.callee and (i.callee == "free" or i.callee in D.namers) and D.msg_arg_positions(i)}
+    consuming = {i.id for i in disp.all_insts() if i.op == "call" and i.callee and (i.callee == "free" or i.callee in D.namers or (i.callee in D.adders and D._queue_arg(i) is not None)) and D.msg_arg_positions(i)}
     ncb = 0
     for b in disp.blocks:
         t = b.term
